@@ -189,7 +189,7 @@ Proof.
       * cbn [e_dir e_kind]. intros d E. inversion E; subst. repeat split; try constructor; intros; discriminate.
       * cbn [e_rpc]. intros i' o' E.
         assert (E' : i' = i /\ o' = o).
-        { destruct i, o; try (inversion E; auto). destruct action; inversion E; auto. }
+        { destruct i, o; inversion E; auto. }
         destruct E'; subst. split; intros x Hx; subst; [apply II | apply OO]; auto; discriminate.
     + dir_case BD body.
 Qed.
